@@ -58,22 +58,38 @@ class MgrCoroContract(MgrContract):
         k = z3.Const('rk', PyV)
         nt0 = m0.snap.getf(m0.world, 'next_task').t
         nt1 = m1.snap.getf(m1.world, 'next_task').t
+        return [f for _n, f in self.rely_named(it, m0, m1)]
+
+    def rely_named(self, it, m0, m1):
+        t = z3.Int('rt')
+        v = z3.Const('rv', PyV)
+        k = z3.Const('rk', PyV)
+        nt0 = m0.snap.getf(m0.world, 'next_task').t
+        nt1 = m1.snap.getf(m1.world, 'next_task').t
         return [
             # r5: tasks only grow, states only move pending -> done, cancel requests stay
-            nt1 >= nt0,
-            FA([v], z3.Implies(m0.tasks.contains(v), m1.tasks.contains(v)), patterns=[m0.tasks.contains(v)]),
-            FA([v], z3.Implies(m1.tasks.contains(v), z3.And(PyV.is_task(v), PyV.tid(v) >= 0, PyV.tid(v) < nt1)),
-               patterns=[m1.tasks.contains(v)]),
-            FA([t], z3.Implies(m0.task_st(t) != T_PENDING, z3.And(m1.task_st(t) == m0.task_st(t),
-                                                                 m1.task_exc(t) == m0.task_exc(t))),
-               patterns=[m1.task_st(t)]),
-            FA([t], z3.Implies(m0.task_cancel(t), m1.task_cancel(t)), patterns=[m1.task_cancel(t)]),
-            FA([t], z3.Implies(m1.task_st(t) == T_EXC, PyV.is_exc(m1.task_exc(t))), patterns=[m1.task_exc(t)]),
+            ('r5-task-counter-monotone', nt1 >= nt0),
+            ('r5-registry-grows', FA([v], z3.Implies(m0.tasks.contains(v), m1.tasks.contains(v)),
+                                     patterns=[m0.tasks.contains(v), m1.tasks.contains(v)])),
+            ('r5-registry-holds-created-tasks', FA([v], z3.Implies(m1.tasks.contains(v), z3.And(
+                PyV.is_task(v), PyV.tid(v) >= 0, PyV.tid(v) < nt1)), patterns=[m1.tasks.contains(v)])),
+            ('r5-finished-tasks-stay-finished', FA([t], z3.Implies(
+                z3.And(t >= 0, t < nt0, m0.task_st(t) != T_PENDING),
+                z3.And(m1.task_st(t) == m0.task_st(t), m1.task_exc(t) == m0.task_exc(t))),
+                patterns=[m1.task_st(t), m0.task_st(t), m1.task_exc(t)])),
+            ('r5-cancel-requests-stay', FA([t], z3.Implies(z3.And(t >= 0, t < nt0, m0.task_cancel(t)), m1.task_cancel(t)),
+                                           patterns=[m1.task_cancel(t), m0.task_cancel(t)])),
+            ('r5-failed-tasks-carry-exceptions', FA([t], z3.Implies(m1.task_st(t) == T_EXC, PyV.is_exc(m1.task_exc(t))),
+                                                   patterns=[m1.task_exc(t)])),
             # events are never cleared
-            FA([k], z3.Implies(m0.event_set(k), m1.event_set(k)), patterns=[m1.event_set(k)]),
+            ('events-stay-set', FA([k], z3.Implies(m0.event_set(k), m1.event_set(k)), patterns=[m1.event_set(k), m0.event_set(k)])),
             # r3: a recorded switch decision stays a CaseResult (it may be replaced inside a recurrent re-iteration)
-            FA([k], z3.Implies(PyV.is_case(m0.S.SW.get(k, z3.BoolVal(False))), PyV.is_case(m1.S.SW.get(k, z3.BoolVal(False)))),
-               patterns=[m1.S.SW.data.at(k)]),
+            ('r3-switch-decisions-stay', FA([k], z3.Implies(PyV.is_case(m0.S.SW.get(k, z3.BoolVal(False))),
+                                                            PyV.is_case(m1.S.SW.get(k, z3.BoolVal(False)))),
+                                            patterns=[m1.S.SW.data.at(k), m0.S.SW.data.at(k)])),
+            # INV1: no result is ever stored for a synthetic switch node (guarantee side: every set_node_result site)
+            ('INV1-no-result-for-switch-nodes', FA([k], z3.Implies(m1.G.is_switch(k), z3.Not(m1.S.R.data.has(k))),
+                                                   patterns=[m1.S.R.data.has(k)])),
         ]
 
     def modifies(self, it, pre, a):
@@ -721,3 +737,371 @@ class M_execute_node(CoroBase):
 
     def cancel_trace(self, it, pre, post, a, outcome, value, effects):
         return [('cancelled-coroutine-exits-by-raising|C13', outcome == 'raise')]
+
+
+# ======================================================================================
+# _run_node  (C02, C14, C19, C04, C11)
+# ======================================================================================
+def spawns(effects):
+    return [e for e in effects if e.kind == 'spawn']
+
+
+def order_ok(effects, *items):
+    """python bool: the given effects occur in this order"""
+    idx = [effects.index(x) for x in items]
+    return idx == sorted(idx) and len(set(idx)) == len(idx)
+
+
+@contract
+class M_run_node(CoroBase):
+    name = 'DAGRunConcurrentManager._run_node'
+    returns = 'none'
+    yields = True
+    props = ('C02', 'C14', 'C19', 'C04', 'C11', 'C13', 'C01', 'C03', 'C05')
+    doc = ('stores what _execute_node returned (after its completion event), saves it, sets the execution event and '
+           'notifies notifset(n) ∪ {RUN} (∪ {n} if n is the dag\'s destination) on every exit; a Recurrent result '
+           'spawns the re-iteration and notifies only the node\'s own condition')
+    cancel_propagates = False      # `return` inside `finally` on the Recurrent path may swallow anything
+
+    def setup(self, it):
+        st = it.st
+        m = new_manager(it)
+        d = new_subdag(it, m)
+        for ax in notif_axioms(MV(st.snapshot(), m)):
+            st.assume(ax)
+        st.ghost['notif_ax'] = True
+        return m, CallArgs([d, SymV(st.fresh_val('n')), SymB(st.fresh_bool('fd'))])
+
+    def requires(self, it, pre, a):
+        m = self.mv(pre, a)
+        n = T(a.node_id, it.st)
+        return [('node-well-formed', wf_node(m, n)),
+                ('a-real-node', z3.And(z3.Not(m.G.is_switch(n)), z3.Not(m.G.is_head(n)))),
+                ('switch-inputs-resolved|C03,C09', switch_preds_resolved(m, n)),
+                ('input-kwargs-do-not-use-engine-names', input_kwargs_wf(m))]
+
+    def other_raises(self, it, pre, a):
+        return [ExcCase('node-failure-or-collaborator', None, may=True)]
+
+    def exit_notifications(self, it, pre, a, effects, recurrent):
+        st = it.st
+        sub = SubV(pre, a.dag)
+        n = T(a.node_id, st)
+        x = z3.Const('nx1', PyV)
+        evs = [e for e in effects if e.kind == 'event_set' or (e.kind == 'call' and e.fn.endswith('__unlock_execution_lock'))]
+        out = [('execution-event-set-on-every-exit|C04,C02',
+                any(z3.is_true(z3.simplify((e.event if e.kind == 'event_set' else T(e.a.node_id, st)) == n)) for e in evs))]
+        if recurrent:
+            out.append(('re-iteration-owner-notifies-its-own-condition|C11,C02', notifies(it, effects, a.node_id)))
+            out.append(('consumers-not-released-on-a-Recurrent-result|C11',
+                        not calls(effects, '__unlock_descendants') and not calls(effects, '__unlock_run_method')))
+        else:
+            out.append(('consumers-notified|C02', FA([x], z3.Implies(NOTIF(n, x), notifies(it, effects, x)),
+                                                      patterns=[NOTIF(n, x)])))
+            out.append(('RUN-notified|C02,C05', notifies(it, effects, 'run')))
+            out.append(('own-condition-notified-when-destination|C02', z3.Implies(n == sub.dest, notifies(it, effects, a.node_id))))
+        out.append(('notifications-do-not-yield|C02,C13', True))
+        return out
+
+    def trace(self, it, pre, post, a, outcome, value, effects):
+        st = it.st
+        n = T(a.node_id, st)
+        ex = calls(effects, '._execute_node')
+        sets = calls(effects, 'set_node_result')
+        saves = calls(effects, 'save_node_result')
+        sp = spawns(effects)
+        out = [('executes-the-node-exactly-once|C04', len(ex) == 1 and z3.simplify(z3.And(
+            T(ex[0].a.node_id, st) == n, B(ex[0].a.force_default) == B(a.force_default))))]
+        if len(ex) != 1:
+            return out
+        e0 = ex[0]
+        out.append(('in-the-scope-it-was-started-from|C10', e0.a.dag is a.dag or same_value(e0.a.dag, a.dag, st)))
+        if e0.exc is not None:
+            out.append(('failed-execution-stores-and-saves-nothing|C19,C14', not sets and not saves and not sp))
+            out += self.exit_notifications(it, pre, a, effects, recurrent=False)
+            out.append(('the-failure-propagates-unchanged|C05', outcome == 'raise' and z3.simplify(value.t == e0.exc.t)))
+            return out
+        res = T(e0.res, st)
+        is_rec = PyV.is_rec(res)
+        rec_path = bool(sp)
+        out.append(('re-iteration-spawned-iff-the-result-is-Recurrent|C11', is_rec if rec_path else z3.Not(is_rec)))
+        ok = len(sets) == 1
+        out.append(('result-stored-exactly-once|C14,C19', ok))
+        if not ok:
+            return out
+        s0 = sets[0]
+        out.append(('stores-the-value-the-execution-returned|C01,C14', z3.And(T(s0.a.node_id, st) == n, T(s0.a.data, st) == res)))
+        out.append(('stored-only-after-the-execution-(and-its-completion-event)-finished|C14', order_ok(effects, e0, s0)))
+        out.append(('never-stores-a-result-for-a-synthetic-switch-node (INV1)', z3.Not(self.mv(pre, a).G.is_switch(n))))
+        if rec_path:
+            r0 = sp[0]
+            out.append(('re-iteration-is-_run_recurrent_subgraph-for-this-node-and-result|C11',
+                        len(sp) == 1 and r0.fn.endswith('_run_recurrent_subgraph') and z3.simplify(z3.And(
+                            T(r0.kwargs.get('node_id'), st) == n, T(r0.kwargs.get('node_result'), st) == res))
+                        and (r0.kwargs.get('dag') is a.dag)))
+            out.append(('re-iteration-spawned-through-the-task-registry|C13', len(calls(effects, '_create_task')) == 1))
+            out.append(('re-iteration-spawned-before-the-result-is-stored|C11', order_ok(effects, r0, s0)))
+        # ---- C19: the save site -------------------------------------------------------
+        if saves:
+            v0 = saves[0]
+            out.append(('saved-at-most-once-per-run-of-this-coroutine|C19', len(saves) == 1))
+            out.append(('saves-the-value-consumers-read|C19', z3.And(T(v0.a.node_id, st) == n, T(v0.a.data, st) == res)))
+            out.append(('never-saves-a-Recurrent-marker|C19', z3.Not(is_rec)))
+            out.append(('never-saves-a-contained-failure|C19', z3.Not(PyV.is_exc(res))))
+            exd = [e for e in effects if e.kind == 'executed']
+            out.append(('saves-only-a-value-this-call-actually-executed|C19', exd[0].first_arrival if exd else False))
+        else:
+            out.append(('every-final-value-reaches-the-store|C19', False))
+        store_failed = bool(saves) and saves[0].exc is not None
+        out += self.exit_notifications(it, pre, a, effects, recurrent=rec_path)
+        if store_failed and not rec_path:
+            out.append(('artifact-store-failure-propagates|C02', outcome == 'raise' and z3.simplify(value.t == saves[0].exc.t)))
+        elif not store_failed:
+            out.append(('returns-normally|C02', outcome == 'return'))
+        return out
+
+    def cancel_trace(self, it, pre, post, a, outcome, value, effects):
+        # the finally clause still releases late arrivals and waiters (non-blocking), then the coroutine ends
+        st = it.st
+        n = T(a.node_id, st)
+        evs = [e for e in effects if e.kind == 'event_set' or (e.kind == 'call' and e.fn.endswith('__unlock_execution_lock'))]
+        return [('execution-event-set-even-when-cancelled|C04,C13',
+                 any(z3.is_true(z3.simplify((e.event if e.kind == 'event_set' else T(e.a.node_id, st)) == n)) for e in evs))]
+
+
+# ======================================================================================
+# _run_dag  (C03.a, C06, C04, C10, C11, C13)
+# ======================================================================================
+from pyvc.interp import Partial, BoundMethod, Coroutine   # noqa: E402
+from pyvc.contract import REGISTRY                        # noqa: E402
+
+
+def base_requires(m):
+    return [('no-result-for-switch-nodes (INV1)', inv_no_result_for_switch(m)),
+            ('input-kwargs-do-not-use-engine-names', input_kwargs_wf(m))]
+
+
+def graph_wf(m):
+    n = z3.Const('gwn', PyV)
+    return FA([n], z3.Implies(m.G.node(n), wf_node(m, n)), patterns=[m.G.node(n)])
+
+
+def switch_wf(m):
+    """builder guarantees about synthetic switch nodes (C15): one decider edge, distinct case labels"""
+    from .manager_seq import SW_OF
+    s, p, p2 = z3.Consts('sws swp swp2', PyV)
+    return FA([s], z3.Implies(m.G.is_switch(s), z3.And(
+        m.G.edge(SW_OF(s), s), m.G.sw_edge(SW_OF(s), s),
+        FA([p], z3.Implies(z3.And(m.G.edge(p, s), m.G.sw_edge(p, s)), p == SW_OF(s))),
+        FA([p, p2], z3.Implies(z3.And(m.G.edge(p, s), m.G.edge(p2, s), z3.Not(m.G.sw_edge(p, s)),
+                                      z3.Not(m.G.sw_edge(p2, s)), m.G.case(p, s) == m.G.case(p2, s)), p == p2)))),
+        patterns=[m.G.is_switch(s)])
+
+
+def ready_formula(it, snap, mgr, dag, n):
+    m = MV(snap, mgr)
+    x = z3.Const('rfx', PyV)
+    return FA([x], z3.Implies(BASE_PRED(it, snap, m, dag, n, x), READY(m, SUBST(m, x))))
+
+
+def has_error_formula(it, snap, mgr, dag):
+    m = MV(snap, mgr)
+    x = z3.Const('hex', PyV)
+    return z3.Exists([x], z3.And(node_in_dag(it, snap, dag, x), PyV.is_exc(m.S.R.get(x, z3.BoolVal(False)))))
+
+
+def spawn_preconditions(it, eff, caller):
+    """the callee's precondition must hold in the state in which it is spawned (and is then kept by the rely)"""
+    out = []
+    coro = eff.coro
+    if not isinstance(coro, Coroutine) or coro.fn is None or not hasattr(coro.fn, 'key'):
+        return out
+    c = REGISTRY.get(coro.fn.key)
+    if c is None:
+        return out
+    a = c.bind(it, coro.fn, coro.self_val, CallArgs(coro.args, coro.kwargs, coro.starmaps))
+    for n, f in c.requires(it, eff.snap, a):
+        if n.startswith('assumed:'):
+            continue        # named history assumptions are carried, not checked, at spawn sites
+        out.append((f'spawn:{c.name.split(".")[-1]}.pre[{n}]', f))
+    return out
+
+
+@contract
+class M_run_dag(CoroBase):
+    name = 'DAGRunConcurrentManager._run_dag'
+    returns = 'val'
+    yields = True
+    props = ('C03', 'C06', 'C04', 'C10', 'C11', 'C13', 'C02', 'C09', 'C01')
+    doc = ('launches the dag\'s pending nodes in topological order, each as its own task and only in a state where it is '
+           'ready; blocks on nothing but the readiness of the node being launched; a failed one-of scope stops launching')
+
+    def setup(self, it):
+        st = it.st
+        m = new_manager(it)
+        d = new_subdag(it, m)
+        for ax in notif_axioms(MV(st.snapshot(), m)):
+            st.assume(ax)
+        st.ghost['notif_ax'] = True
+        return m, CallArgs([d])
+
+    def requires(self, it, pre, a):
+        m = self.mv(pre, a)
+        x = z3.Const('rdx', PyV)
+        return base_requires(m) + [
+            ('graph-well-formed', graph_wf(m)),
+            ('switch-nodes-well-formed', switch_wf(m)),
+            ('dag-nodes-are-graph-nodes', FA([x], z3.Implies(node_in_dag(it, pre, a.dag, x), m.G.node(x)))),
+            # history lemma H1 (assumed, see DESIGN §7): the nodes of a recurrent subgraph already ran once in a
+            # non-recurrent scope, where all their graph predecessors were awaited; a recorded switch decision stays
+            ('assumed:H1-switch-inputs-of-re-iterated-nodes-are-resolved', z3.Implies(SubV(pre, a.dag).is_recurrent, FA(
+                [x], z3.Implies(node_in_dag(it, pre, a.dag, x), switch_preds_resolved(m, x))))),
+        ]
+
+    # ---- loop -----------------------------------------------------------------------
+    @property
+    def loops(self):
+        outer = self
+
+        def inv(ctx):
+            it = ctx.it
+            lt = it.st.getf(ctx.var('local_tasks'), 'items')
+            if isinstance(lt, tuple):
+                lt = it.models.to_symseq(it, lt)
+            j = z3.Int('ltj')
+            m = MV(ctx.now(), ctx.a.self)
+            return [('local-tasks-are-registered-tasks', FA([j], z3.Implies(z3.And(j >= 0, j < lt.len), z3.And(
+                PyV.is_task(lt.at(j)), m.tasks.contains(lt.at(j)))), patterns=[lt.at(j)])),
+                ] + [(f'rely-since-entry:{n_}', f_) for n_, f_ in outer.rely_named(it, MV(ctx.pre, ctx.a.self), m)]
+
+        def heap_havoc(it, env):
+            return outer.shared_locs(it)
+
+        def body_post(ctx):
+            it, a, st = ctx.it, ctx.a, ctx.st
+            effs = ctx.iter_effects
+            node = ctx.seq.at(ctx.i_before)
+            out = list(outer.iteration_clauses(it, ctx.pre, a, effs, node))
+            # normal continuation: exactly one launch
+            cts = calls(effs, '_create_task')
+            sps = spawns(effs)
+            ok = len(cts) == 1 and len(sps) == 1
+            out.append(('exactly-one-task-per-node|C04,C06', ok))
+            if ok:
+                out += outer.launch_clauses(it, ctx.pre, a, effs, node, sps[0])
+            return out
+
+        return [LoopSpec(text='list_node_ids', havoc={'local_tasks': 'content'}, heap_havoc=heap_havoc, inv=inv,
+                         body_post=body_post)]
+
+    def iteration_clauses(self, it, pre, a, effs, node):
+        st = it.st
+        waits = [e for e in effs if e.kind == 'wait']
+        ok = len(waits) >= 1
+        out = [('waits-for-the-readiness-of-the-node-being-launched|C03,C06', ok)]
+        if ok:
+            w = waits[0]
+            p = w.pred
+            shape = (isinstance(p, Partial) and isinstance(p.fn, BoundMethod)
+                     and p.fn.finfo.qualname.endswith('._is_ready_to_execute') and len(p.args) == 2 and p.args[0] is a.dag)
+            out.append(('readiness-predicate-is-_is_ready_to_execute(dag, node)|C03', shape and z3.simplify(
+                z3.And(T(p.args[1], st) == node, w.cond == node))))
+        ys = [e for e in effs if e.kind == 'yield']
+        out.append(('blocks-on-nothing-but-that-readiness|C06', all(e.label == 'cond.wait' for e in ys) and len(ys) <= 1))
+        return out
+
+    def launch_clauses(self, it, pre, a, effs, node, sp):
+        st = it.st
+        m = MV(sp.snap, a.self)
+        sub = SubV(pre, a.dag)
+        out = []
+        coro = sp.coro
+        fn = sp.fn
+        kind_switch, kind_head = m.G.is_switch(node), m.G.is_head(node)
+        which = ('_run_switch' if fn.endswith('._run_switch') else '_run_oneof' if fn.endswith('._run_oneof')
+                 else '_run_node' if fn.endswith('._run_node') else None)
+        out.append(('launched-coroutine-is-a-runner|C03', which is not None))
+        if which is None:
+            return out
+        out.append(('runner-matches-the-node-kind|C09,C10', {'_run_switch': kind_switch,
+                                                            '_run_oneof': z3.And(z3.Not(kind_switch), kind_head),
+                                                            '_run_node': z3.And(z3.Not(kind_switch), z3.Not(kind_head))}[which]))
+        c = REGISTRY.get(coro.fn.key) if hasattr(coro.fn, 'key') else None
+        if c is not None:
+            ca = c.bind(it, coro.fn, coro.self_val, CallArgs(coro.args, coro.kwargs, coro.starmaps))
+            out.append(('runner-gets-this-dag-and-node|C03', (ca.dag is a.dag) and z3.simplify(T(ca.node_id, st) == node)))
+            if which == '_run_node':
+                out.append(('runner-not-forced-to-default|C12', z3.simplify(z3.Not(B(ca.force_default)))))
+        # C03.a: the launch gate
+        out.append(('launched-in-a-state-where-the-node-is-ready|C03', ready_formula(it, sp.snap, a.self, a.dag, node)))
+        out.append(('not-launched-in-a-failed-one-of-scope|C10', z3.Implies(sub.is_oneof, z3.Not(
+            has_error_formula(it, sp.snap, a.self, a.dag)))))
+        out.append(('launched-as-its-own-task-and-not-awaited|C06', not [e for e in effs if e.kind == 'yield'
+                                                                          and effs.index(e) > effs.index(sp)]))
+        out.append(('task-is-named-after-the-node', z3.simplify(T(sp.name, st) == node)))
+        out += spawn_preconditions(it, sp, self.name)
+        return out
+
+    # ---- whole function -------------------------------------------------------------
+    def trace(self, it, pre, post, a, outcome, value, effects):
+        st = it.st
+        sub = SubV(pre, a.dag)
+        m0 = self.mv(pre, a)
+        out = []
+        orders = calls(effects, '_get_node_order')
+        hides = calls(effects, 'hide_last_execution')
+        ys = [i for i, e in enumerate(effects) if e.kind == 'yield']
+        ok = len(orders) == 1 and (orders[0].a.dag is a.dag)
+        out.append(('order-computed-once-for-this-dag|C04,C06', ok))
+        if not ok:
+            return out
+        o = orders[0]
+        oi = effects.index(o)
+        out.append(('order-computed-before-any-yield', not [y for y in ys if y < oi]))
+        L = o.post.getf(o.res, 'items')
+        if hides:
+            h = hides[0]
+            out.append(('previous-iteration-hidden-only-in-a-recurrent-dag|C04,C11', sub.is_recurrent))
+            out.append(('exactly-the-dag-nodes-are-hidden|C11', len(hides) == 1 and z3.simplify(
+                z3.And(h.a.seq.len == L.len, h.a.seq.arr == L.arr))))
+            out.append(('hidden-in-the-segment-that-computed-the-order|C11', not [y for y in ys if oi < y < effects.index(h)]))
+        else:
+            out.append(('a-recurrent-dag-hides-its-previous-iteration|C11', z3.Not(sub.is_recurrent)))
+        tail = tail_after_loop(effects)
+        in_loop_summary = any(e.kind == 'loop_summary' for e in effects)
+        stops = calls(tail, '_stop_coro_tasks')
+        if outcome == 'raise':
+            out.append(('never-ends-with-an-exception|C02,C05', False))
+            return out
+        if not in_loop_summary and not [e for e in effects if e.kind == 'wait']:
+            # empty order
+            out.append(('returns-at-once-only-when-nothing-is-to-run', z3.And(L.len == 0, T(value, st) == NONE)))
+            return out
+        if stops:
+            # early exit of a failed one-of scope (inside an iteration)
+            out += self.iteration_clauses(it, pre, a, tail, None) if False else []
+            errs = calls(tail, '__has_subgraph_error')
+            unl = calls(tail, '__unlock_descendants')
+            out.append(('early-exit-only-in-a-failed-one-of-scope|C10', z3.And(sub.is_oneof, z3.BoolVal(bool(errs)))))
+            out.append(('early-exit-launches-nothing-further|C10', not spawns(tail) and not calls(tail, '_create_task')))
+            out.append(('early-exit-releases-the-waiters-of-the-node-it-did-not-launch|C02,C10', len(unl) == 1))
+            out.append(('early-exit-returns-None', T(value, st) == NONE))
+            lt_ok = len(stops) == 1
+            out.append(('early-exit-cancels-only-its-own-tasks|C13', lt_ok))
+            return out
+        # normal completion: wait for the destination, return its value
+        waits = [e for e in tail if e.kind == 'wait']
+        ok = len(waits) == 1
+        out.append(('waits-for-the-destination-result|C02,C11', ok))
+        if ok:
+            w = waits[0]
+            p = w.pred
+            shape = (isinstance(p, Partial) and isinstance(p.fn, BoundMethod)
+                     and p.fn.finfo.qualname.endswith('.exists_node_result') and len(p.args) == 1)
+            out.append(('destination-wait-predicate|C02', shape and z3.simplify(z3.And(
+                T(p.args[0], st) == sub.dest, w.cond == sub.dest))))
+        gets = calls(tail, 'get_node_result')
+        out.append(('returns-the-destination-value|C11', len(gets) == 1 and z3.simplify(z3.And(
+            T(gets[0].a.node_id, st) == sub.dest, T(value, st) == T(gets[0].res, st), B(gets[0].a.with_hidden)))))
+        out.append(('launches-nothing-after-the-loop|C04', not spawns(tail)))
+        return out
